@@ -14,6 +14,7 @@ import (
 	"verifharness/outfam"
 	"verifharness/remotefam"
 	"verifharness/rep"
+	"verifharness/shapefam"
 )
 
 func main() {
@@ -77,6 +78,15 @@ func main() {
 			tier = os.Args[2]
 		}
 		os.Exit(execfam.CheckExec(os.Args[1], tier))
+	case "worker-shape":
+		shapefam.WorkerMain()
+		return
+	case "C16":
+		tier := "quick"
+		if len(os.Args) > 2 {
+			tier = os.Args[2]
+		}
+		os.Exit(shapefam.Check(tier))
 	case "worker-exec":
 		execfam.WorkerMain()
 		return
